@@ -181,7 +181,7 @@ def main(chk):
                 r2 = Ptr(s2.alloc(Lazy(H.REQ, '*r#2')))
                 w2 = IfaceV(H.LW, Ptr(s2.alloc(Opaque('w2'))))
                 H.add_hints(pin(r'^\*\*r#2\.URL\.Path$', path2), nonnil_ptr(r'^\*r#2\.URL$'), lens(r'^len\(\*r#2\.Form\[', [1]))
-                H.ex.deadline = time.time() + 300
+                H.ex.deadline = time.process_time() + 300
                 out2 = {'n': {'ssh': 0, 'x509': 0}, 'verdict': 'holds', 'cut': True}
                 H.ex.on_sign = make_oracle(chk, path2, ne, 'second request', out2)
                 paths2 = H.ex.run(handler, [state, w2, r2], s2)
